@@ -39,6 +39,7 @@ pub fn info() -> PropInfo {
             "undefined results are secondary only: abs/neg of the minimum, float->integer conversions that do not fit, float division by zero, abs of -0.0/NaN, const_type with more data than the type size, a float register answer to breg with a negative offset, a negative typed value used as an address, a composite location that ends with a non-piece request operation (the pinned tree completes where a plain trailing operation gives InvalidPiece)",
             "payloads of errors (BadBranchTarget offset, InvalidExpressionTerminator offset) are not compared",
             "storage capacities of the custom storages are those declared by the harness ([Value; N] etc.); only success iff the model's need fits and StackFull otherwise are judged",
+            "a program whose bytes contain, at any offset, a branch with a negative displacement or a call is never run without an iteration limit (the harness cannot interrupt the evaluator): 'no limit' is replaced by the model's budget of 400 iterations for those programs; programs that cannot loop are run with max_iterations unset",
             "only the documented protocol is used: evaluate() once, then exactly the resume_with_* matching each Requires*; nothing is called after an error",
         ],
         exhaustive_subspaces: &[
@@ -535,8 +536,35 @@ fn compare(ctx: &mut Ctx, tag: &str, code: &[u8], cfg: &Config, script: &gen::Sc
     ok
 }
 
+/// Could evaluation of these bytes ever go backwards or call?  Conservative: looks at every
+/// byte offset, decoded as an operation or not.
+fn may_loop(code: &[u8], pool: &[Vec<u8>]) -> bool {
+    let scan = |b: &[u8]| {
+        b.iter().enumerate().any(|(i, &o)| match o {
+            0x98 | 0x99 | 0x9a => true,
+            0x28 | 0x2f => i + 2 < b.len() && (b[i + 1] & 0x80 != 0 || b[i + 2] & 0x80 != 0),
+            _ => false,
+        })
+    };
+    scan(code) || pool.iter().any(|e| scan(e))
+}
+
 /// Run model + gimli for one configuration and compare.
 fn one_case(ctx: &mut Ctx, tag: &str, code: &[u8], cfg: &Config, script: &gen::Script) -> Option<Outcome> {
+    // The evaluator cannot be interrupted: a program that could loop (it contains, at any
+    // byte offset, a branch with a negative displacement or a call) is never run without
+    // an iteration limit, so that a divergence from the model shows up as a mismatch and
+    // not as a hang of the harness.
+    let limited;
+    let cfg = if cfg.max_iterations.is_none() && may_loop(code, &script.pool) {
+        let mut c = cfg.clone();
+        c.max_iterations = Some(c.budget as u32);
+        limited = c;
+        ctx.obs("limit.safety_net");
+        &limited
+    } else {
+        cfg
+    };
     let mut f = |i: usize, r: &Req| script.answer(i, r);
     let m = model::evaluate(code, cfg, &script.pool, &mut f);
     if matches!(m.end, End::Budget) {
@@ -547,7 +575,7 @@ fn one_case(ctx: &mut Ctx, tag: &str, code: &[u8], cfg: &Config, script: &gen::S
     ctx.eval();
     observe(ctx, cfg, &m, script);
     let max_req = m.requests.len() + 4;
-    let g = crate::rt::capture(|| drive(code, cfg, script, max_req));
+    let g = ctx.guard_raw("Evaluation", || drive(code, cfg, script, max_req));
     match g {
         Ok(g) => {
             compare(ctx, tag, code, cfg, script, &m, &g);
@@ -975,7 +1003,7 @@ fn random_programs(ctx: &mut Ctx) {
         let Some(m) = one_case(ctx, "random", &code, &cfg, &script) else { continue };
         flow_observations(ctx, &m);
         let exhausted = matches!(m.end, End::Budget);
-        if !exhausted {
+        if !exhausted && !may_loop(&code, &script.pool) {
             ctx.obs("limit.none");
         }
         if m.iterations >= 1 {
@@ -1024,7 +1052,9 @@ fn random_programs(ctx: &mut Ctx) {
         if i % 4001 == 7 {
             ctx.sample("random", || {
                 json!({"program": hex(&code), "config": cfg_json(&cfg), "model_end": show_end(&m.end), "model_requests": show_reqs(&m.requests), "iterations": m.iterations, "decodes": m.decodes,
-                       "gimli_end": format!("{:?}", crate::rt::capture(|| drive(&code, &cfg, &script, m.requests.len() + 4)).map(|g| g.end).ok())})
+                       // never re-run a program that may loop without a limit (the sample is taken from
+                       // the unlimited configuration)
+                       "gimli_end": if may_loop(&code, &script.pool) { "(agreed with the model; not re-run for the sample)".to_string() } else { format!("{:?}", crate::rt::capture(|| drive(&code, &cfg, &script, m.requests.len() + 4)).map(|g| g.end).ok()) }})
             });
         }
     }
